@@ -57,6 +57,9 @@ def start(vkind, n, cplx, Qe, seed):
         return rnd(n), n
     if vkind == "batch":
         return rnd(n, 2), n
+    if vkind == "batchmix":  # an eigenvector next to a random vector: the two columns exhaust their Krylov spaces at different steps
+        v = np.stack([Qe[:, 0] * 2.0, rnd(n)], axis=1)
+        return (v if cplx else v.real), n
     if vkind == "default":
         return None, n
     d = {"eig1": 1, "eig2": 2, "eig3": 3}[vkind]
@@ -66,14 +69,23 @@ def start(vkind, n, cplx, Qe, seed):
     return (v if cplx else v.real), idx
 
 
-def check_one(M, v, Qd, Td, j, m, tol, d_inv, lam, fam, bad, normA, check_first=True):
+def check_one(M, v, Qd, Td, j, m, tol, d_inv, lam, fam, bad, normA, check_first=True, exhausted_at=None):
     n = M.shape[0]
+    if exhausted_at is not None and exhausted_at < j:
+        # batch element whose Krylov space ends before the common column count: judge its leading part, the rest must carry no weight
+        if np.max(np.abs(Td[exhausted_at:, :exhausted_at]), initial=0.0) > 1e-8 * normA:
+            bad("batch-element-continues-beyond-its-exhausted-space", {"coupling": float(np.max(np.abs(Td[exhausted_at:, :exhausted_at])))})
+        Qd, Td, j = Qd[:, :exhausted_at], Td[:exhausted_at, :exhausted_at], exhausted_at
+        m = min(m, exhausted_at)
     if Qd.shape != (n, j) or Td.shape != (j, j):
         bad("shape", {"Q": list(Qd.shape), "T": list(Td.shape)})
         return
     if j < 1 or j > min(m, n):
         bad("too-many-or-no-columns", {"columns": j, "max_iters": m})
         return
+    if fam in ("definite", "indefinite") and d_inv == n and n <= 40 and tol <= 1e-7 and j < min(m, n) and exhausted_at is None:
+        # simple, well separated spectrum and a generic start vector: the only reasons to stop are the cap and n
+        bad("stopped-before-the-cap-without-exhaustion", {"columns": j, "max_iters": m})
     if not (np.all(np.isfinite(Qd)) and np.all(np.isfinite(Td))):
         bad("nonfinite", {})
         return
@@ -184,7 +196,7 @@ def run_case(case, seed):
                     bad("ritz-values-are-not-rayleigh-quotients", {})
                 h.update(np.round(vals.real / normA, 7).tobytes())
                 continue
-            if vkind == "batch":
+            if vkind in ("batch", "batchmix"):
                 Qb = np.asarray(Q.to_dense())
                 from cola.backends import np_fns
                 Tb = np.asarray(np_fns.vmap(T.__class__.to_dense)(T))
@@ -192,7 +204,8 @@ def run_case(case, seed):
                     bad("batch-shape", {"Q": list(Qb.shape)})
                     continue
                 for c in range(2):
-                    check_one(M, v[:, c], Qb[c], Tb[c], Qb.shape[2], m, tol, d_inv, lam, fam, bad, normA)
+                    ex_at = 1 if (vkind == "batchmix" and c == 0) else None
+                    check_one(M, v[:, c], Qb[c], Tb[c], Qb.shape[2], m, tol, n if ex_at is None else d_inv, lam, fam, bad, normA, exhausted_at=ex_at)
                 h.update(np.round(np.abs(Tb) / normA, 6).tobytes())
                 continue
             Qd, Td = np.asarray(Q.to_dense()), np.asarray(T.to_dense())
@@ -214,14 +227,16 @@ def cases(tier, seed):
                 continue
             ms = list(range(1, n + 4)) if n <= 6 else sorted({1, 2, 5, n - 1, n, n + 5, 1000})
             for cplx in (False, True):
-                for vk in ("rand", "eig1", "eig2", "eig3", "batch", "default"):
-                    if fam in ("Identity", "ScalarMul") and vk in ("eig2", "eig3"):
+                for vk in ("rand", "eig1", "eig2", "eig3", "batch", "batchmix", "default"):
+                    if fam in ("Identity", "ScalarMul") and vk in ("eig2", "eig3", "batchmix"):
+                        continue
+                    if vk == "batchmix" and (n < 3 or fam not in ("definite", "indefinite")):
                         continue
                     for tol in (1e-12, 1e-7, 1e-3):
                         for entry in ("lanczos", "lanczos_eigs", "Lanczos()"):
-                            if vk == "batch" and entry != "lanczos":
+                            if vk in ("batch", "batchmix") and entry != "lanczos":
                                 continue
-                            if tier == "quick" and (n > 12 or (n > 6 and (tol == 1e-3 or entry == "Lanczos()"))) and not (vk in ("rand", "eig2") and tol == 1e-12 and entry == "lanczos"):
+                            if tier == "quick" and (n > 12 or (n > 6 and (tol == 1e-3 or entry == "Lanczos()"))) and not (vk in ("rand", "eig2", "batchmix") and tol == 1e-12 and entry == "lanczos"):
                                 continue
                             if n == 300 and not (entry == "lanczos" and vk in ("rand", "eig3") and tol != 1e-3):
                                 continue
